@@ -258,7 +258,7 @@ def write_evidence(prop, tier, level, coverage, wall, violations, assumptions):
 
 def shard_lines(path, n, outdir, prefix):
     """Split an ndjson file into n shards of consecutive lines; returns paths of non-empty shards."""
-    lines = open(path).read().splitlines()
+    lines = [l for l in open(path).read().split('\n') if l.strip()]     # not splitlines(): U+2028, U+0085 ... are data
     n = max(1, min(n, len(lines)))
     per = (len(lines) + n - 1) // n
     out = []
